@@ -1319,8 +1319,9 @@ def _returns_at_least_param(t, k):
     return True if init else None
 
 
-def rule_variable_count_monotone(ctx):
-    """C15: the number of variables a back end knows never decreases"""
+def rule_variable_count_monotone(ctx, owners=None):
+    """C15: the number of variables a back end knows never decreases (C16: `owners` restricts it to the text back end,
+    whose header is printed from that counter while the stored clauses stay)"""
     prog = ctx.prog
     r = ctx.rule(
         "variable-count-monotone",
@@ -1332,7 +1333,7 @@ def rule_variable_count_monotone(ctx):
     for imp, nb in prog.impl_methods(SATSOLVER, "n_vars"):
         owner = imp.get("self_adt")
         adt = prog.adt(owner) if owner else None
-        if adt is None:
+        if adt is None or (owners and not re.search(owners, owner)):
             continue
         int_fields = {f["name"] for v in adt["variants"] for f in v["fields"] if f["ty"] in ("usize", "isize", "i32", "u32", "i64", "u64")}
         read = {f for f in self_fields_read(nb, {"l": 0, "p": []}) if f in int_fields}
@@ -1419,7 +1420,7 @@ def rule_variable_count_monotone(ctx):
                 elif rv["k"] == "binop" and rv["op"] in ("Add", "AddWithOverflow"):
                     ok = any(reads_field(a) for a in rv["ops"])
                 r.check(bool(ok), anchor, "non-monotone-store", "the stored value is max(old, x) / old + k / x under x > old", "`%s` (read by n_vars()) is overwritten with a value that can be smaller than the current one: variables the solver already knows are forgotten" % target, s.loc())
-    r.floor(n, 2, "stores to the variable-count fields of the back ends")
+    r.floor(n, 1 if owners else 2, "stores to the variable-count fields of the back ends")
 
 
 _VEC_SHRINKERS = r"^alloc::vec::Vec::(truncate|pop|remove|swap_remove|clear|drain|retain|retain_mut|dedup|dedup_by|dedup_by_key|split_off)$"
